@@ -1,7 +1,5 @@
 package main
 
-func cmdCheck(args []string)    {}
-func cmdSSAFacts(args []string) {}
 
 type ctxObj struct{}
 
